@@ -308,3 +308,37 @@ MANIFEST_TEXT["C14"] = {
              "ContractFormatError/ValueError or leave a still-valid entry."),
     "note": "Trusted: CPython, the 40-line reference schema of a contract dictionary in pvm/checks/c14.py.",
 }
+
+META["C06"] = {
+    "level": "exploration",
+    "rule": ("(E) every assignment of roles (absent/input/output in each contract) to 4 variables (6561 pairs) x "
+             "{compose, quotient} x {no option, keep / additional input = each single variable} x {no input "
+             "constrained, every input constrained by an assumption} and merge (quick tier: a seed-rotated sixth of "
+             "that grid; thorough: all of it plus all 59049 pairs over 5 variables for the default options); (G) "
+             "constructor arguments with planted faults, rename/copy cases, and pairs with arbitrary contents from the "
+             "C01/C02/C08 families. An icontract class invariant on IoContract re-checks well-formedness after the "
+             "constructor and every public method; the prescribed interface and the must-reject predicate are "
+             "recomputed with independent set arithmetic. Non-trivial = the operation was executed on constructed "
+             "operands; distinct = case digests."),
+    "required": ["topology4_cases", "topology5_cases", "reach:returned:compose", "reach:returned:quotient",
+                 "reach:returned:merge", "reach:returned:rename", "reach:returned:copy",
+                 "reach:must-reject:compose:shared", "reach:must-reject:compose:feedback",
+                 "reach:must-reject:compose:keeping", "reach:must-reject:quotient:a",
+                 "reach:must-reject:quotient:additional", "reach:must-reject:merge:union",
+                 "reach:must-reject:rename:variable", "constructor:dup-input:IncompatibleArgsError",
+                 "constructor:none:returned", "op:refines-different-interfaces:IncompatibleArgsError",
+                 "invariant_evaluations"],
+    "assumptions": [TB, "icontract 2.7.3 class invariant in record-and-return-True style; interface lists are compared "
+                    "as sets (duplicates and overlap are the invariant's business)"],
+    "exhaustive": False,
+    "exhaustive_note": "thorough tier: the 4-variable option grid and the 5-variable default grid are enumerated completely",
+    "soft_s": {"quick": 240, "thorough": 3000},
+}
+MANIFEST_TEXT["C06"] = {
+    "technique": RM + "icontract class invariant on IoContract + postconditions recomputing the prescribed interface and the must-reject predicate; bounded-exhaustive interface topologies",
+    "text": ("Exploration with an enumerated core: all interface topologies of two contracts over 4 variables (5 in the "
+             "thorough tier) are driven through compose / quotient / merge; every returned contract must satisfy the "
+             "class invariant and have exactly the prescribed interface, every meaningless request must raise "
+             "IncompatibleArgsError."),
+    "note": "Trusted: CPython, icontract, the 50 lines of set arithmetic in pvm/checks/c06.py.",
+}
